@@ -263,6 +263,54 @@ def make_value(kind: str, h: str):
     raise ValueError(kind)
 
 
+def _retype(v):
+    """the same JSON value with other element types: ints become floats, bools become ints (== holds, types differ)"""
+    if isinstance(v, bool):
+        return int(v)
+    if isinstance(v, int) and abs(v) < 2**52:
+        return float(v)
+    if isinstance(v, list):
+        return [_retype(x) for x in v]
+    if isinstance(v, dict):
+        return {k: _retype(x) for k, x in v.items()}
+    return v
+
+
+def make_value_rev(kind: str, h: str, e: int):
+    """value of a computation that also reads an external resource (not a declared input) at revision `e`; revision 0 is
+    make_value(kind, h). Later revisions are biased to what makes an incomplete replacement of a stored result visible:
+    the revision-0 value with other element types, a shorter / emptier value, or an unrelated value."""
+    if not e:
+        return make_value(kind, h)
+    r = random.Random(f'rev:{kind}:{h}:{e}')
+    mode = r.random()
+    base = make_value(kind, h)
+    tag = digest([h, e])[:16]
+    if mode < 0.25 and kind in ('dict', 'list', 'gen', 'genlazy', 'mem'):
+        v = _retype(base)
+        if v != base or canon_json(v) != canon_json(base):
+            return v
+    if mode < 0.55:
+        if kind == 'list':
+            return [tag] if r.random() < 0.5 else []
+        if kind in ('gen', 'genlazy'):
+            return [] if r.random() < 0.5 else [tag]
+        if kind == 'listnp':
+            return [] if r.random() < 0.5 else [np.frombuffer(bytes.fromhex(tag), dtype=np.uint8).copy()]
+        if kind == 'dict':
+            return {'h': tag}
+        if kind in ('dir', 'cont'):
+            keep = sorted(base)[: r.choice([0, 1])]
+            d = {k: base[k] for k in keep if k != 'prov.txt'}
+            d['prov.txt'] = tag
+            return d
+        if kind == 'ndarray':
+            return np.frombuffer(bytes.fromhex(tag), dtype=np.uint8).copy()[: r.choice([0, 1, 8])]
+        if kind == 'str':
+            return tag[: r.choice([0, 1, 16])]
+    return make_value(kind, digest([h, e]))
+
+
 # ----------------------------------------------------------------------------------------------- canonical form
 
 def _cfloat(f: float):
